@@ -16,10 +16,11 @@ import (
 
 // acceptSpec describes the accepting side of a primitive interface.
 type acceptSpec struct {
-	Prop     string    // property id prefix for rule names, e.g. "C02"
-	Iface    [2]string // module-relative package, interface name
-	Method   string    // accepting method
-	MinTypes int
+	Prop      string    // property id prefix for rule names, e.g. "C02"
+	Iface     [2]string // module-relative package, interface name
+	Method    string    // accepting method
+	MinTypes  int
+	PkgPrefix string // only implementers in packages with this module-relative prefix ("" = all)
 }
 
 // authenticating external calls: a nil error / true result means the input was
@@ -106,6 +107,23 @@ func (ac *acceptCtx) isAuthCall(cc *ssa.CallCommon) bool {
 	}
 	if callee := cc.StaticCallee(); callee != nil && ac.auth[callee] {
 		return true
+	}
+	// method of an unexported module interface: authenticating when every
+	// module implementer's method is
+	if cc.IsInvoke() && cc.Method.Pkg() != nil && core.ClassOf(cc.Method.Pkg().Path()) == core.Product {
+		if it, ok := cc.Value.Type().Underlying().(*types.Interface); ok {
+			impls := ac.c.P.Implementers(it, core.Product)
+			if len(impls) == 0 {
+				return false
+			}
+			for _, t := range impls {
+				m := ac.c.P.MethodOf(t, cc.Method.Name())
+				if m == nil || !ac.auth[m] {
+					return false
+				}
+			}
+			return true
+		}
 	}
 	return false
 }
@@ -335,6 +353,15 @@ func runAccept(c *Ctx, ac *acceptCtx, spec acceptSpec) {
 		return
 	}
 	impls := p.Implementers(it, core.Product)
+	if spec.PkgPrefix != "" {
+		var keep []types.Type
+		for _, t := range impls {
+			if n := core.NamedOf(t); n != nil && strings.HasPrefix(core.Rel(n.Obj().Pkg().Path()), spec.PkgPrefix) {
+				keep = append(keep, t)
+			}
+		}
+		impls = keep
+	}
 	r.Counts["implementers_"+spec.Iface[1]] = len(impls)
 	if len(impls) < spec.MinTypes {
 		r.AnchorMissing(spec.Prop+".auth", fmt.Sprintf("implementers of %s.%s: %d < %d", spec.Iface[0], spec.Iface[1], len(impls), spec.MinTypes))
